@@ -1559,6 +1559,13 @@ func (in *Interp) convert(fr *frame, ins ssa.Instruction, v Value, from, to type
 					}
 					return StrV{b: b}
 				}
+				if ok && eb.Kind() == types.Int32 {
+					var b []*Term
+					for _, e := range in.sliceElems(sv) {
+						b = append(b, in.runeToString(e.(*Term), eb).(StrV).b...)
+					}
+					return StrV{b: b}
+				}
 			}
 			in.unsupported("conversion to string from " + from.String())
 		}
@@ -1587,6 +1594,24 @@ func (in *Interp) convert(fr *frame, ins ssa.Instruction, v Value, from, to type
 					e[i] = t
 				}
 				arr := in.newObj(types.NewArray(tb.Elem(), int64(len(e))), &ArrayV{e: e}, "[]byte(string)")
+				return SliceV{arr: arr, len: len(e), cap: len(e)}
+			}
+			if ok && eb.Kind() == types.Int32 {
+				// []rune(s): decode rune by rune (forks on the UTF-8 byte classes of symbolic bytes)
+				s := v.(StrV)
+				var e []Value
+				for i := 0; i < len(s.b); {
+					b0 := s.b[i]
+					if in.branch(in.tt.Bin(OpUlt, b0, in.tt.b8[0x80])) {
+						e = append(e, in.tt.Resize(b0, 32, false))
+						i++
+						continue
+					}
+					r, size := in.decodeRuneSym(s.b[i:])
+					e = append(e, r)
+					i += size
+				}
+				arr := in.newObj(types.NewArray(tb.Elem(), int64(len(e))), &ArrayV{e: e}, "[]rune(string)")
 				return SliceV{arr: arr, len: len(e), cap: len(e)}
 			}
 		}
